@@ -53,7 +53,8 @@ Record world := {
   w_head : list (list Z);      (* first min(32,size) bytes of content c *)
   w_rd : list Z;               (* outcome of reader g on content c as kind k at index (c*4+g)*4+k *)
   w_wr : list (Z * nat);       (* writer g on the fixed object of kind k: (outcome, content left in the file) at g*4+k *)
-  w_empty : nat                (* content id of the empty file (left by a truncating open) *)
+  w_empty : nat;               (* content id of the empty file (left by a truncating open) *)
+  w_inf : list Z               (* outcome of info() of format g on content c at index c*4+g *)
 }.
 
 Record pst := { cur : option fmt; perm : bool; tag : list Z }.
@@ -64,6 +65,7 @@ Notation state := (pst * fsys)%type.
 Definition sfx_of (W : world) (n : nat) : sfx := nth n (w_sfx W) SNone.
 Definition head_of (W : world) (c : nat) : list Z := firstn 32 (nth c (w_head W) []).
 Definition rd_of (W : world) (c : nat) (g : fmt) (k : kind) : Z := nth ((c * 4 + fmt_idx g) * 4 + kind_idx k) (w_rd W) 3.
+Definition inf_of (W : world) (c : nat) (g : fmt) : Z := nth (c * 4 + fmt_idx g) (w_inf W) 3.
 Definition wr_of (W : world) (g : fmt) (k : kind) : Z * nat := nth (fmt_idx g * 4 + kind_idx k) (w_wr W) (3, w_empty W).
 
 (* ---- MathsIOBase::known_suffix / MathsIO::format_from_suffix / MathsIO::format ---- *)
@@ -206,10 +208,10 @@ Definition op_info (c : cfg) (W : world) (n : nat) (s : state) : state * result 
       let p1 := {| cur := cur p; perm := perm p; tag := b |} in
       let str := cstr b in
       match cur p with
-      | Some g => if identify g str then ((p1, fs), (0, [g])) else ((p1, fs), (E_NO_IO, []))
+      | Some g => if identify g str then ((p1, fs), (inf_of W ct g, [g])) else ((p1, fs), (E_NO_IO, []))
       | None =>
           match find (fun g => identify g str) (w_ios W) with
-          | Some g => ((p1, fs), (0, [g]))
+          | Some g => ((p1, fs), (inf_of W ct g, [g]))
           | None => ((p1, fs), (E_NO_IO, []))
           end
       end
